@@ -350,7 +350,20 @@ def rule_call_apply_name(check):
             cands.append((n, h, mem_arg[0], vec_arg[0]))
         elif mem_arg and "Vec<" in (h.rec.get("ret") or "") and "Ident" in (h.rec.get("ret") or ""):
             cands.append((n, h, mem_arg[0], None))
+        elif mem_arg and "Option<" in (h.rec.get("ret") or "") and "Ident" in (h.rec.get("ret") or "") and "Vec<" not in (h.rec.get("ret") or ""):
+            cands.append((n, h, mem_arg[0], "direct"))
     key = R + "/call-or-apply-name"
+    if len(cands) == 1 and cands[0][3] == "direct":
+        # no path vector at all: the helper hands back one identifier, which must be the member's own property
+        n, h, mi, _ = cands[0]
+        mo = pv.origins(g, hir.call_args(n)[mi])
+        whole = bool(mo) and all(r[0] == "param" and p_ == () for r, p_ in mo)
+        ro = set()
+        for r_ in return_exprs(h.body):
+            ro |= {o for o in pv.origins(h, r_) if not (o[0][0] == "ctor" and o[0][1].split("::")[-1] in ("None", "Some"))}
+        own = bool(ro) and all(r[0] == "param" and r[2] == mi and p_[:1] == ("prop",) for r, p_ in ro)
+        check.expect(whole and own, R, key + "/first-element", hir.loc(n), "the method name is the property of the member itself (%s)" % h.name, "the method name of `F.call/apply` is not the property through which F is read: %s" % sorted(origin_str(o) for o in ro))
+        return
     if len(cands) != 1:
         check.bad(R, key, hir.loc(g.rec), "cannot find the one helper that collects the member path of `F.call/apply` (%d candidates)" % len(cands))
         return
